@@ -12,7 +12,7 @@
 (* stays well formed, and the two spec readers agree.  `out` carries what  *)
 (* the replayer compares with the real library after the last operation.   *)
 (***************************************************************************)
-EXTENDS Marshal, TLC
+EXTENDS MarshalMachine, TLC
 
 CONSTANTS Docs0,        \* set of initial document sequences
           CopyModes,    \* subset of BOOLEAN
@@ -221,6 +221,9 @@ RoundTripOK ==
           /\ DenoteDeser(r) = docs
           /\ WellFormed(r.tape)
           /\ NopExact(r.tape)
+\* the marshalling stack machine (separators decided by peeking past NOP gaps) produces the canonical text
+MachineAgrees ==
+  copy => (out.text = MarshalError \/ MachineOutput(tape, sb) = out.text)
 \* an operation that is refused changes nothing
 RefusedIsNoop == [][out'.err => (tape' = tape /\ sb' = sb /\ docs' = docs)]_vars
 \* strings are only ever appended to the buffer
